@@ -28,8 +28,7 @@ theorem setWord_testBit (w op b k : Nat) :
       have := and3_testBit_ge op (k - b) (by omega)
       rw [Nat.testBit_and, three_testBit] at this
       simp [h1, h2, h3]
-  · have : ¬ (b ≤ k ∧ k < b + 2) := by omega
-    simp [h1, this]
+  · simp [h1]
 
 /-- reading two bits at offset `b'` from a word written at offset `b` (both even) -/
 theorem read_setWord (w op b b' : Nat) (hb : b % 2 = 0) (hb' : b' % 2 = 0) :
@@ -116,7 +115,7 @@ theorem setSignWord_testBit (w b k : Nat) (s : Bool) :
     (clearBits w (1 <<< b) ||| ((if s then 1 else 0) <<< b)).testBit k = if k = b then s else w.testBit k := by
   simp only [clearBits, Nat.testBit_or, Nat.testBit_xor, Nat.testBit_and, Nat.testBit_shiftLeft, one_testBit]
   by_cases h : k = b
-  · subst h; cases s <;> simp [one_testBit]
+  · subst h; cases s <;> simp
   · by_cases h1 : b ≤ k
     · have : ¬ (k - b = 0) := by omega
       cases s <;> simp [h, h1, this, one_testBit]
@@ -131,7 +130,7 @@ theorem and_one_shift_ne_zero (w b : Nat) : ((w &&& (1 <<< b)) != 0) = w.testBit
     · subst hk; cases hw : w.testBit k <;> simp [Nat.testBit_two_pow_self]
     · cases hw : w.testBit b
       · simp; intro _ _ h; omega
-      · simp [Nat.testBit_two_pow, Ne.symm hk]; intro _ _ h; omega
+      · simp [Ne.symm hk]; intro _ _ h; omega
   rw [this]
   cases w.testBit b <;> simp
 
